@@ -85,9 +85,9 @@ pub fn exec(case: &Value) -> Value {
     }
 }
 
-const NAMES: [&str; 8] = ["a", "ab", "b", "a b", "{a", "a}}b", "", "x.y"];
-const TEXTS: [&str; 12] = ["X", "", "{{b}}", "{{a}}", "Y{{ab}}Z", "}}", "{{", "a.*b", "(?i)C:\\\\Win", "{", "}", "{{a}}{{b}}"];
-const PIECES: [&str; 16] = ["{{a}}", "{{ab}}", "{{b}}", "{{a b}}", "{{zz}}", "{{{a}}}", "{{", "}}", "{", "}", "x", " ", "{{a}}b}}", "{{}}", "{{x.y}}", "{{{{a}}}}"];
+const NAMES: [&str; 9] = ["a", "ab", "b", "a b", "{a", "a}}b", "", "x.y", "\u{e9}"];
+const TEXTS: [&str; 14] = ["X", "", "{{b}}", "{{a}}", "Y{{ab}}Z", "}}", "{{", "a.*b", "(?i)C:\\\\Win", "{", "}", "{{a}}{{b}}", "\u{e9}", "/home/\u{65e5}"];
+const PIECES: [&str; 19] = ["{{a}}", "{{ab}}", "{{b}}", "{{a b}}", "{{zz}}", "{{{a}}}", "{{", "}}", "{", "}", "x", " ", "{{a}}b}}", "{{}}", "{{x.y}}", "{{{{a}}}}", "\u{e9}", "\u{65e5}\u{672c}", "{{\u{e9}}}"];
 
 pub fn gen(tier: &str, seed: u64, out: &mut dyn FnMut(Value)) {
     let mut rng = Rng::new(seed);
